@@ -63,6 +63,93 @@ func runC12(r *Run) {
 		} else {
 			r.Bad("R11", "anchor/ucdao GenesisState.Validate", "", "not found")
 		}
+		r.Rule("R12", "PATH.foreign-writer-of-the-total-keeps-the-equation: the recorded total is written by the keeper's own setter (R1) — and by whoever else opens the DAO store under TotalBalanceKey with the store key in hand (an upgrade handler's one-off repair; C15 R1 tables it). Such a writer changes the total without touching any share, so each of its writes is reachable only over the passing edge of an equality test between a value derived from the recorded total and the sum of the holders' shares (accumulated by IterateAllBalances / GetAccountsBalances): it may restore the equation where the ledger is off by exactly its amount, it may not break it on a chain whose ledger is consistent")
+		{
+			nFW := 0
+			for _, fn := range r.P.Funcs {
+				if pathHasSuffix(fnPkgPath(fn), "x/ucdao/keeper") || fn.Synthetic != "" || isTestSupport(r.P, fn) {
+					continue
+				}
+				var stores []ssa.Value
+				eachCall(fn, func(ci CallInfo) {
+					if ci.Name != "NewStore" {
+						return
+					}
+					for _, a := range ci.Instr.Common().Args {
+						if backSlice(a).Any(func(v ssa.Value) bool {
+							g, ok := v.(*ssa.Global)
+							return ok && g.Name() == "TotalBalanceKey" && g.Pkg != nil && pathHasSuffix(g.Pkg.Pkg.Path(), "x/ucdao/types")
+						}) {
+							if v, ok := ci.Instr.(ssa.Value); ok {
+								stores = append(stores, v)
+							}
+						}
+					}
+				})
+				if len(stores) == 0 {
+					continue
+				}
+				// allocs captured by a closure handed to an all-holders iteration
+				sumCells := map[ssa.Value]bool{}
+				sumCall := false
+				eachCall(fn, func(ci CallInfo) {
+					if ci.Name == "GetAccountsBalances" {
+						sumCall = true
+					}
+					if ci.Name != "IterateAllBalances" {
+						return
+					}
+					for _, a := range ci.Instr.Common().Args {
+						if mc, ok := a.(*ssa.MakeClosure); ok {
+							for _, b := range mc.Bindings {
+								sumCells[b] = true
+							}
+						}
+					}
+				})
+				pass, _ := guardPassEdges(fn, func(cond ssa.Value) (bool, bool) {
+					c, ok := cond.(*ssa.Call)
+					if !ok || !(callInfo(c).Name == "Equal" || callInfo(c).Name == "IsEqual") || len(c.Call.Args) != 2 {
+						return false, false
+					}
+					isTotal := func(v ssa.Value) bool {
+						return backSlice(v).HasCall(func(g CallInfo) bool { return g.Name == "GetTotalBalanceOf" || g.Name == "GetTotalBalance" })
+					}
+					isSum := func(v ssa.Value) bool {
+						sl := backSlice(v)
+						if sumCall && sl.HasCall(func(g CallInfo) bool { return g.Name == "GetAccountsBalances" }) {
+							return true
+						}
+						return sl.Any(func(x ssa.Value) bool { return sumCells[x] })
+					}
+					a, b := c.Call.Args[0], c.Call.Args[1]
+					return true, (isTotal(a) && isSum(b)) || (isTotal(b) && isSum(a))
+				})
+				idx := 0
+				eachCall(fn, func(ci CallInfo) {
+					if !(ci.Name == "Set" || ci.Name == "Delete") || len(ci.Instr.Common().Args) == 0 {
+						return
+					}
+					recv := ci.Instr.Common().Args[0]
+					isTot := false
+					for _, st := range stores {
+						if backSlice(recv).Has(st) {
+							isTot = true
+						}
+					}
+					if !isTot {
+						return
+					}
+					nFW++
+					idx++
+					call := ci.Instr
+					w := PathQuery{Fn: fn, Target: func(x ssa.Instruction) bool { return x == ssa.Instruction(call) }, DelEdge: edgeSet(pass)}.Search()
+					r.Check(w == nil && len(pass) > 0, "R12", fmt.Sprintf("%s#total-%s-%d-keeps-the-equation", fnID(fn), ci.Name, idx), r.P.Pos(instrPos(call)), "reachable only where the new total equals the sum of the holders' shares",
+						"a function outside the DAO keeper rewrites the recorded total without comparing it with the sum of the holders' shares: on every chain whose ledger is consistent (or off by another amount) the write breaks total = Σ shares — permanently, nothing recomputes the total — or fails on a total below the hard-coded amount", r.P.witness(w)...)
+				})
+			}
+			r.Count("R12 writes of the DAO total outside the keeper", nFW)
+		}
 		r.Rule("R10", "SHAPE.index-decided-by-balances-only: setHoldersIndex lists an address exactly when its DAO balances are not all zero — every branch condition in it is built from GetAccountBalances(addr).IsZero() and holdersStore.Has(key) alone; a condition that consults anything else (the bank keeper's blocked addresses, account types) makes the index differ from the set of non-zero accounts")
 		if sh, ok := r.P.FnOK("(x/ucdao/keeper.BaseKeeper).setHoldersIndex"); ok {
 			allowed := map[string]bool{"GetAccountBalances": true, "IsZero": true, "Has": true, "MustLengthPrefix": true, "getHoldersStore": true, "KVStore": true, "NewStore": true}
